@@ -8,6 +8,7 @@
      - delivers nothing to names not chosen and nothing to chosen names the archive lacks;
    and pushing those pieces, each cut in any way, through write_all into any throttling /
    interrupting destination leaves exactly these bytes there. *)
+From MLA Require Import Limit.
 From MLA Require Import Base Stream Blocks Writer Reader LinearProofs RoundTripBlocks RoundTripFooter
   RoundTripReader RoundTripWriter RoundTripRun RoundTripGlue RoundTrip Sink SinkProofs
   LinearRoundTripDefs LinearRoundTripPure.
@@ -16,6 +17,7 @@ Open Scope N_scope.
 
 (* ---------- io::copy(take(len x), w) inside a known field ---------- *)
 Section CopyTake.
+  Context {LIM : Limit}.
   Variable S : Stream.
   Variable b : bytes.
   Variable R : st S -> N -> Prop.
@@ -48,6 +50,7 @@ End CopyTake.
 
 (* ---------- the walk over a well-formed block list followed by EndOfArchiveData ---------- *)
 Section Walk.
+  Context {LIM : Limit}.
   Variable FNMAX : N.
   Variables T_START T_CONTENT T_EOA T_EOF : N.
   Hypothesis Htags : tags_distinct T_START T_CONTENT T_EOA T_EOF.
@@ -112,6 +115,7 @@ End Walk.
 
 (* ---------- the theorem ---------- *)
 Section LinearRoundTrip.
+  Context {LIM : Limit}.
   Variable FNMAX : N.
   Variables T_START T_CONTENT T_EOA T_EOF : N.
   Variable H : bytes -> bytes.
